@@ -233,9 +233,8 @@ structure ToomScratch where
 
 /-- the scratch-buffer computations of `toom_3::add_signed_mul_same_len`, in source order (they never
     read `c`).  `rec` is `mul::add_signed_mul_same_len` (always called with `Positive` on a buffer whose
-    carry-out is asserted zero).  `div_by_word_in_place(t1, 6)` (C02) and `shr_in_place(t2, 1)` (C09) are
-    taken at their specification; their asserted-zero remainders are proved zero. -/
-def toomScratch (W : Nat) (rec : MulKernel) (a b : List Nat) : ToomScratch :=
+    carry-out is asserted zero), up to (not including) the final `t1 /= 6`, `t2 /= 2`. -/
+def toomScratchPre (W : Nat) (rec : MulKernel) (a b : List Nat) : ToomScratch :=
   let n := a.length
   let n3 := (n + 2) / 3
   let n3s := n - 2 * n3
@@ -266,10 +265,19 @@ def toomScratch (W : Nat) (rec : MulKernel) (a b : List Nat) : ToomScratch :=
   let cEval := (rec (List.replicate (2 * (n3 + 1)) 0) false am.2 bm.2).1
   let t2 := (addSignedSameLen W t2a vneg cEval).1
   let t1 := if vneg then (subMulWordSameLen W t1 2 cEval).1 else (addMulWordSameLen W t1 2 cEval).1
-  -- t1 /= 6;  t2 /= 2
-  let t1 := wordsOfLen W (2 * n3 + 2) (val W t1 / 6)
-  let t2 := wordsOfLen W (2 * n3 + 2) (val W t2 / 2)
   ⟨v0, vinf, t2a, t1, t2⟩
+
+/-- `toomScratchPre` followed by the two exact divisions `t1 /= 6` (`div_by_word_in_place(t1, 6)`) and
+    `t2 /= 2` (`shr_in_place(t2, 1)`).  The quotients are written as the `2·n3 + 2` words of `val / 6` and
+    `val / 2`; `Proofs/Int/MulCompose.lean` proves that these are exactly the outputs of the mirrored
+    kernels `Div.divByWordInPlace` / `Div.shrInPlace` (which live downstream of this file because
+    division calls multiplication) and that both remainders are zero (`assert_eq!(t1_rem, 0)`,
+    `assert_eq!(t2_rem, 0)`). -/
+def toomScratch (W : Nat) (rec : MulKernel) (a b : List Nat) : ToomScratch :=
+  let p := toomScratchPre W rec a b
+  let n3 := (a.length + 2) / 3
+  ⟨p.v0, p.vinf, p.t2a, wordsOfLen W (2 * n3 + 2) (val W p.t1 / 6),
+    wordsOfLen W (2 * n3 + 2) (val W p.t2 / 2)⟩
 
 /-- the updates of `c` in `toom_3::add_signed_mul_same_len`, in source order; carries `carry_c0..c3`
     leave the windows at `2n3`, `3n3+2`, `4n3+2`, `5n3+2` and are applied at the end -/
